@@ -95,8 +95,11 @@ def problems(seed, count, features=None, need=None):
                 pr = Gen(s, features).problem(f"g{s}")
         except Exception:  # noqa
             continue
-        st0 = seqsem.initial_state(pr)
-        if not seqsem.initial_ok(pr, st0):
+        try:
+            st0 = seqsem.initial_state(pr)
+            if not seqsem.initial_ok(pr, st0):
+                continue
+        except Exception:  # noqa: the stored model is not evaluable (e.g. a simplification left a free variable)
             continue
         if need is not None and not need(pr):
             continue
